@@ -636,7 +636,8 @@ def _is_then_some(t):
     """`cond.then_some(value)`: the `if cond { Some(value) } else { None }` it abbreviates"""
     nm = t.get("ncallee") or t.get("callee") or ""
     return "<impl bool>::then_some" in nm and len(t.get("args") or []) == 2 and t.get("t") is not None and len(t.get("d") or []) == 1 \
-        and not t.get("mac") and t["args"][0][0] in ("cp", "mv")
+        and not t.get("mac") and t["args"][0][0] in ("cp", "mv") and t["args"][1][0] in ("cp", "mv")
+        # (`cond.then_some(()).ok_or(e)?` — a verdict turned into a Result — stays a call: the tracker carries the verdict through it)
 
 
 def _expand_then_some(det, byid, state, alloc_block, blk):
@@ -927,7 +928,9 @@ def inline_detail(F, body, raw):
             if h is not None:
                 work.append((blk["id"], h, 1, (body.path, h.path)))
                 continue
-            if _is_then_some(t):
+            _ty1 = raw["locals"].get(str(t["args"][1][1][0]), "") if _is_then_some(t) else ""
+            _ty1 = str(_ty1.get("ty", "")) if isinstance(_ty1, dict) else str(_ty1)
+            if _is_then_some(t) and _ty1 != "()":
                 work.append((blk["id"], ("thensome",), 1, (body.path,)))
                 continue
             hc = _eligible_comb(F, body, blocks, t, (body.path,))
